@@ -1,6 +1,6 @@
 """C02 — first-order partials (Jacobian) equal the true derivative of the simulation."""
 import numpy as np
-from vlib import core, dprog, tie
+from vlib import core, dprog, tie, prog
 
 
 def jac_fd(make_seq, params, var, h):
@@ -60,6 +60,53 @@ def known_witnesses(ctx):
             ctx.report("Jacobian through %s is %s, finite differences give %s" % (name, jac, fd),
                        {"witness": name, "jacobian": str(jac), "finite_difference": str(fd)}, found_input=True,
                        signature={"site": "Operator.__call__", "op": name, "why": "partials-not-propagated"})
+
+
+def fd_search(p, h=1e-3):
+    """None, or a description of a first-order partial of the final state of the synthetic program p that differs from
+    the 5-point central difference of derivative-free runs. Programs in which a SPOILER follows a declaration are
+    skipped (known finding: cannot be attributed)."""
+    import epgpy as epg
+    from epgpy import opscalar, opmatrix
+    seen = False
+    for o in p["ops"]:
+        seen = seen or (o["op"] == "dop" and bool(o["order1"]))
+        if seen and o["op"] in ("spoil", "reset"):
+            return None
+    variables = sorted({v for o in p["ops"] if o["op"] == "dop" for v in o["order1"]})
+
+    def plain(v, x):
+        sm = epg.StateMatrix(density=p["pd"])
+        for o in p["ops"]:
+            if o["op"] != "dop":
+                sm = prog.build_op(o)(sm, inplace=True)
+                continue
+            arr, arr0 = dprog.arr_np(o["lin"], "arr"), dprog.arr_np(o["lin"], "arr0")
+            for prm, c in o["order1"].get(v, {}).items():
+                d = o["darrs"].get(prm)
+                if d is None:
+                    continue
+                arr = arr + x * c * dprog.arr_np(d, "arr")
+                if d["arr0"] is not None:
+                    arr0 = (0 if arr0 is None else arr0) + x * c * dprog.arr_np(d, "arr0")
+            cls = opscalar.ScalarOp if o["kind"] == "scalar" else opmatrix.MatrixOp
+            sm = cls(arr, arr0, check=False)(sm, inplace=True)
+        return np.array(sm.states)
+    try:
+        sm = epg.StateMatrix(density=p["pd"])
+        for o in p["ops"]:
+            sm = dprog.build(o)(sm, inplace=True)
+        for v in variables:
+            f = {k: plain(v, k * h) for k in (-2, -1, 1, 2)}
+            fd = (-f[2] + 8 * f[1] - 8 * f[-1] + f[-2]) / (12 * h)
+            got = np.array(sm.order1[v].states) if v in getattr(sm, "order1", {}) else np.zeros_like(fd)
+            scale = 1 + max(np.abs(x).max() for x in f.values()) + np.abs(fd).max()
+            if got.shape != fd.shape or np.abs(got - fd).max() > 1e-6 * scale:
+                return "d/d%s of the final state: implementation %s, finite differences %s" % (
+                    v, np.round(got.ravel(), 6).tolist()[:9], np.round(fd.ravel(), 6).tolist()[:9])
+    except Exception as e:
+        return None
+    return None
 
 
 # ---------------------------------------------------------------- n-D shifts with partials (real operators)
@@ -307,12 +354,21 @@ def run(ctx):
     verdicts, errors = ctx.run_bool_cases("corr", dprog.HEADER, terms, chunk=8)
     for e in errors:
         ctx.report("correspondence shard failed to evaluate", {"theorem_or_correspondence": "C02 correspondence (Model/Diff.v)", "coq_output": e}, found_input=False)
-    nbadcorr = 0
+    nbadcorr, nsearch = 0, 0
     for p, v in zip(kept, verdicts):
         if v is False:
             nbadcorr += 1
             if nbadcorr <= 3:
                 ctx.report("bookkeeping model (Model/Diff.v apply_order1) and diff.py disagree", {"dcase": repr(p), "theorem_or_correspondence": "C02 correspondence Model/Diff.v vs epgpy/diff.py"}, found_input=False)
+            # search for a concrete failing input: the partials the implementation carries vs central differences of
+            # derivative-free runs along the linear families arr + x * sum(coef * darr) the declarations stand for
+            if nsearch < 12:
+                nsearch += 1
+                why = fd_search(p)
+                if why:
+                    ctx.report("partials carried through a synthetic program are not the derivative: %s" % why, {"dcase": repr(p)}, found_input=True,
+                               signature={"site": "dprogram-fd", "why": "partials-vs-finite-differences"})
+                    nsearch = 99
     # (c) spec-side oracle on real operators: Jacobian probe vs finite differences of simulate()
     nfd = 6 if quick else 200
     import epgpy as epg
